@@ -92,6 +92,15 @@ func ruleErr8(c *Ctx) {
 				c.Ok(key, c.Pos(in), why)
 				continue
 			}
+			// a parameter whose callers cannot be shown to pass nil: report only with positive evidence of a nil
+			// origin (a nil constant, or a callee that returns one) at some call site — slice elements, fields and
+			// values of unknown origin are taken as initialised, as they are when the switch is written inline
+			if prm, isParam := paramOf(x); isParam {
+				if ev := nilEvidenceAtCallers(c, fn, prm, 0, map[ssa.Value]bool{}); ev == "" {
+					c.Ok(key, c.Pos(in), "no call site passes a value with a nil origin (nil constant or a callee returning one)")
+					continue
+				}
+			}
 			detail := ""
 			if set := ts.Final(x, nil); set != nil {
 				detail = " [dynamic types of the value: " + set.String() + "]"
@@ -223,4 +232,86 @@ func fieldAlwaysInitialised(c *Ctx, x ssa.Value) (string, bool) {
 		return "", false
 	}
 	return fmt.Sprintf("all %d constructions of %s in the program fill this field from a constructor call", allocs, named.Obj().Name()), true
+}
+
+// nilEvidence: a description of a nil origin of v (a nil constant, directly or through the results of static
+// callees and the arguments of callers), or "".
+func nilEvidence(c *Ctx, v ssa.Value, depth int, seen map[ssa.Value]bool) string {
+	if depth > 4 {
+		return ""
+	}
+	for _, o := range core.Origins(v, false) {
+		if seen[o] {
+			continue
+		}
+		seen[o] = true
+		switch x := o.(type) {
+		case *ssa.Const:
+			if x.Value == nil {
+				return "nil constant"
+			}
+		case *ssa.Call:
+			if f := core.StaticCallee(x); f != nil && f.Blocks != nil && f.Signature.Results().Len() == 1 {
+				if ev := nilEvidenceOfResult(c, f, 0, depth, seen); ev != "" {
+					return ev
+				}
+			}
+		case *ssa.Extract:
+			if call, ok := x.Tuple.(*ssa.Call); ok {
+				if f := core.StaticCallee(call); f != nil && f.Blocks != nil {
+					if ev := nilEvidenceOfResult(c, f, x.Index, depth, seen); ev != "" {
+						return ev
+					}
+				}
+			}
+		case *ssa.Parameter:
+			if ev := nilEvidenceAtCallers(c, x.Parent(), x, depth+1, seen); ev != "" {
+				return ev
+			}
+		}
+	}
+	return ""
+}
+
+func nilEvidenceAtCallers(c *Ctx, fn *ssa.Function, prm *ssa.Parameter, depth int, seen map[ssa.Value]bool) string {
+	idx := -1
+	for i, p := range fn.Params {
+		if p == prm {
+			idx = i
+		}
+	}
+	if idx < 0 || depth > 4 {
+		return ""
+	}
+	for _, ed := range c.P.Callers(fn) {
+		if ed.Site == nil || idx >= len(ed.Site.Common().Args) {
+			continue
+		}
+		arg := ed.Site.Common().Args[idx]
+		if in, ok := ed.Site.(ssa.Instruction); ok && core.ClassifyNil(arg, in) == core.NonNil {
+			continue
+		}
+		if ev := nilEvidence(c, arg, depth, seen); ev != "" {
+			return "call at " + c.P.InstrPos(ed.Site) + ": " + ev
+		}
+	}
+	return ""
+}
+
+// nilEvidenceOfResult: some return of f yields a value with a nil origin as result #idx while its error result
+// (if any) is not certainly non-nil — a nil next to an error is not used by a caller that tests the error.
+func nilEvidenceOfResult(c *Ctx, f *ssa.Function, idx int, depth int, seen map[ssa.Value]bool) string {
+	ei := core.ErrorResultIndex(f)
+	for _, r := range core.Returns(f) {
+		if idx >= len(r.Results) {
+			continue
+		}
+		if ei >= 0 && ei < len(r.Results) && ei != idx && core.ClassifyNil(r.Results[ei], r) == core.NonNil {
+			continue
+		}
+		if ev := nilEvidence(c, r.Results[idx], depth+1, seen); ev != "" {
+			return c.P.Name(f) + " returns " + ev
+		}
+	}
+	return ""
 }
